@@ -112,12 +112,183 @@ class Function:
         self._cdeps = None
         self._region_cache = {}
         self._term_cache = {}
+        self.iter_as_elem = set()
+        if self.has_cfg:
+            try:
+                self._normalise_iterator_loops()
+            except Exception:       # the normalisation is an optimisation of recognition, never a requirement
+                pass
         dd = unit.decls[self.decl]
         self.ptypes = dd.get('ptypes', [])
         self.cptypes = dd.get('cptypes', [])
         self.pnames = dd.get('pnames', [])
         self.key = '%s(%s)' % (self.qname, ','.join(self.cptypes)) + ('<%s>' % self.targs if self.targs else '') + \
                    (' const' if self.is_const else '')
+
+    # ------------------------------------------------------------ loop normalisation
+    def _normalise_iterator_loops(self):
+        """for (It it = X.begin()[, last = X.end()]; it != last|X.end(); ++it) { [const T e = *it;] body }  where `it` is
+        not otherwise written is presented to the rules as the range-for it is equivalent to:
+        kind CXXForRangeStmt, rangeinit = X (seen through a single-definition const local), loopvar = e (or `it` itself,
+        with *it read as the element).  X must not be modified through `it` (no other definition of it)."""
+        nodes = self.nodes
+
+        def strip(i):
+            while i >= 0 and nodes[i]['k'] in ('ImplicitCastExpr', 'ParenExpr', 'ExprWithCleanups', 'MaterializeTemporaryExpr',
+                                               'CXXBindTemporaryExpr', 'CXXFunctionalCastExpr', 'CXXConstructExpr') and \
+                    len([c for c in nodes[i]['c'] if c >= 0]) == 1 and (nodes[i]['k'] != 'CXXConstructExpr' or len(nodes[i].get('args', [])) == 1):
+                i = [c for c in nodes[i]['c'] if c >= 0][0]
+            return i
+
+        def callee_name(n):
+            return self.unit.decls[n['callee']]['name'] if 'callee' in n and n['callee'] >= 0 else None
+
+        def member_call(i, name):
+            i = strip(i)
+            n = nodes[i]
+            if n['k'] == 'CXXMemberCallExpr' and callee_name(n) == name and not n.get('args'):
+                return strip(n.get('obj', -1))
+            return None
+
+        def declref(i):
+            i = strip(i)
+            return nodes[i]['d'] if i >= 0 and nodes[i]['k'] == 'DeclRefExpr' else None
+        writes = {}
+        for n in nodes:
+            k = n['k']
+            tgt = None
+            if k in ('BinaryOperator', 'CompoundAssignOperator') and n.get('op', '').endswith('=') and n['op'] not in ('==', '!=', '<=', '>='):
+                tgt = declref(n['c'][0])
+            elif k == 'UnaryOperator' and n.get('op') in ('++', '--'):
+                tgt = declref(n['c'][0])
+            elif k == 'CXXOperatorCallExpr' and 'callee' in n and self.unit.decls[n['callee']].get('op') in ('=', '++', '--', '+=', '-=') and n.get('args'):
+                tgt = declref(n['args'][0])
+            if tgt is not None:
+                writes.setdefault(tgt, []).append(n['i'])
+        decl_init = {}
+        for n in nodes:
+            if n['k'] == 'DeclStmt':
+                for ix, d in enumerate(n['decls']):
+                    if ix < len(n['c']) and n['c'][ix] >= 0:
+                        decl_init.setdefault(d, []).append(n['c'][ix])
+        for n in nodes:
+            if n['k'] != 'ForStmt' or n.get('init', -1) < 0 or n.get('cond', -1) < 0 or n.get('inc', -1) < 0:
+                continue
+            ini = nodes[n['init']]
+            if ini['k'] != 'DeclStmt' or not (1 <= len(ini['decls']) <= 2) or len(ini['c']) < len(ini['decls']):
+                continue
+            it = ini['decls'][0]
+            X = member_call(ini['c'][0], 'begin')
+            if X is None:
+                X = member_call(ini['c'][0], 'cbegin')
+            if X is None:
+                continue
+            last = None
+            if len(ini['decls']) == 2:
+                Xe = member_call(ini['c'][1], 'end')
+                if Xe is None or self._same_expr(X, Xe) is False:
+                    continue
+                last = ini['decls'][1]
+                if writes.get(last):
+                    continue
+            cond = nodes[strip(n['cond'])]
+            ops = None
+            if cond['k'] == 'BinaryOperator' and cond.get('op') == '!=':
+                ops = cond['c']
+            elif cond['k'] == 'CXXOperatorCallExpr' and 'callee' in cond and self.unit.decls[cond['callee']].get('op') == '!=':
+                ops = cond.get('args', [])
+            if not ops or len(ops) != 2 or declref(ops[0]) != it:
+                continue
+            if last is not None:
+                if declref(ops[1]) != last:
+                    continue
+            else:
+                Xe = member_call(ops[1], 'end')
+                if Xe is None or self._same_expr(X, Xe) is False:
+                    continue
+            inc = nodes[strip(n['inc'])]
+            inc_ok = (inc['k'] == 'UnaryOperator' and inc.get('op') == '++' and declref(inc['c'][0]) == it) or \
+                (inc['k'] == 'CXXOperatorCallExpr' and 'callee' in inc and self.unit.decls[inc['callee']].get('op') == '++' and
+                 inc.get('args') and declref(inc['args'][0]) == it)
+            if not inc_ok or writes.get(it, []) != [inc['i']]:
+                continue
+            # element variable: first statement of the body `T e = *it`
+            body = nodes[n['body']] if n.get('body', -1) >= 0 else None
+            if body is None:
+                continue
+            # inside the body the iterator is only ever dereferenced (not handed to erase / insert / compared / copied)
+            par = self.parent
+            only_deref = True
+            for x in self.descendants(n['body']):
+                xn = nodes[x]
+                if xn['k'] == 'DeclRefExpr' and xn['d'] in (it, last):
+                    if xn['d'] == last:
+                        only_deref = False
+                        break
+                    p1 = par.get(x)
+                    while p1 is not None and nodes[p1]['k'] in ('ImplicitCastExpr', 'ParenExpr'):
+                        p1 = par.get(p1)
+                    pn = nodes[p1] if p1 is not None else None
+                    ok_use = pn is not None and (
+                        (pn['k'] == 'UnaryOperator' and pn.get('op') == '*') or
+                        (pn['k'] == 'CXXOperatorCallExpr' and 'callee' in pn and self.unit.decls[pn['callee']].get('op') in ('*', '->')
+                         and len(pn.get('args', [])) == 1))
+                    if not ok_use:
+                        only_deref = False
+                        break
+            if not only_deref:
+                continue
+            loopvar, loopvarstmt = None, None
+            first = body['c'][0] if body['k'] == 'CompoundStmt' and body['c'] else None
+            if first is not None and nodes[first]['k'] == 'DeclStmt' and len(nodes[first]['decls']) == 1 and nodes[first]['c']:
+                e = nodes[first]['decls'][0]
+                ie = nodes[strip(nodes[first]['c'][0])]
+                is_deref = (ie['k'] == 'UnaryOperator' and ie.get('op') == '*' and declref(ie['c'][0]) == it) or \
+                    (ie['k'] == 'CXXOperatorCallExpr' and 'callee' in ie and self.unit.decls[ie['callee']].get('op') == '*' and
+                     ie.get('args') and declref(ie['args'][0]) == it)
+                if is_deref and not writes.get(e):
+                    loopvar, loopvarstmt = e, first
+            if loopvar is None:
+                # the iterator stands for the element: *it is read as the loop variable
+                entry = None
+                for b in self.blocks.values():
+                    if b.term == n['i'] and b.succs and b.succs[0] is not None and b.succs[0] >= 0:
+                        eb = self.blocks[b.succs[0]]
+                        if eb.elems:
+                            entry = eb.elems[0]
+                if entry is None:
+                    continue
+                loopvar, loopvarstmt = it, entry
+                self.iter_as_elem.add(it)
+            # the range: X, seen through a single-definition const local that holds it by value (`const Edges all = edges();`)
+            rng = X
+            d = declref(X)
+            if d is not None and not self.unit.decls[d].get('isref') and len(decl_init.get(d, [])) == 1 and not writes.get(d) and \
+                    self.unit.decls[d].get('dk') == 'Var' and 'const' in self.unit.decls[d].get('type', ''):
+                rng = strip(decl_init[d][0])
+            n['k'] = 'CXXForRangeStmt'
+            n['loopvar'] = loopvar
+            n['rangeinit'] = rng
+            n['rangestmt'] = n['init']
+            n['beginstmt'] = n['init']
+            n['endstmt'] = n['init']
+            n['loopvarstmt'] = loopvarstmt
+            n['from_iterator_loop'] = True
+
+    def _same_expr(self, a, b):
+        """structural equality of two small expression trees (None when undecided)"""
+        na, nb = self.nodes[a], self.nodes[b]
+        if na['k'] != nb['k']:
+            return False
+        if na['k'] == 'DeclRefExpr':
+            return na['d'] == nb['d']
+        if na.get('callee') != nb.get('callee') or na.get('d') != nb.get('d') or na.get('op') != nb.get('op'):
+            return False
+        ka = [c for c in na['c'] if c >= 0]
+        kb = [c for c in nb['c'] if c >= 0]
+        if len(ka) != len(kb):
+            return False
+        return all(self._same_expr(x, y) for x, y in zip(ka, kb))
 
     # ------------------------------------------------------------ basic access
     def file(self):
